@@ -22,6 +22,12 @@ SY = 'gaddlemaps/components/_system.py'
 CO = 'gaddlemaps/components/_components.py'
 CLI = 'gaddlemaps/_cli.py'
 TM = 'gaddlemaps/_transform_molecule.py'
+AUX = 'gaddlemaps/_auxilliary.py'
+RES = 'gaddlemaps/components/_residue.py'
+PAR = 'gaddlemaps/parsers/__init__.py'
+ITP = 'gaddlemaps/parsers/_itp_parse.py'
+TOP = 'gaddlemaps/parsers/_top_parsers.py'
+CT = 'gaddlemaps/components/_components_top.py'
 
 # name: (property, file, old, new)
 MUTANTS = {
@@ -106,6 +112,42 @@ MUTANTS = {
  'C20-aa-top-by-order': ('C20', CLI, '        if (filename not in used_files) and (molecule.name in added_molecues):', '        if (filename not in used_files) and added_molecues:\n            molecule = type("M", (), {"name": sorted(added_molecues)[0]})()\n            if "top_AA" in added_molecues[molecule.name]:\n                continue'),
  'C20-end-swapped-between-species': ('C20', CLI, '        end_molecules[name] = Molecule.from_files(specie[1], specie[2])', '        end_molecules[name] = Molecule.from_files(species[0][1], species[0][2])'),
  'C20-unseeded': ('C20', CLI, '    manager.align_molecules()\n', '    import numpy as _np\n    _np.random.seed()\n    manager.align_molecules()\n'),
+ 'C01-anchor-with-one-bond': ('C01', XM, 'if len(atom.bonds) >= 2:', 'if len(atom.bonds) >= 1:'),
+ 'C01-farthest-anchor': ('C01', XM, 'return sorted(distances)[0][1]', 'return sorted(distances)[-1][1]'),
+ 'C01-scale-applied-twice': ('C01', XM, 'return proyect * self.scale_factor', 'return proyect * self.scale_factor ** 2'),
+ 'C01-frame-not-normalised': ('C01', AUX, '    else:\n        vec3 /= np.linalg.norm(vec3)', '    else:\n        vec3 = vec3 * 1.0'),
+ 'C02-frames-not-recomputed': ('C02', XM, '        self._calculate_refsystems(refmolecule)\n        new_mol = self._restore_molecule()', '        new_mol = self._restore_molecule()'),
+ 'C02-absolute-vectors': ('C02', AUX, '    aux = pos1-pos0', '    aux = pos1'),
+ 'C02-two-atom-axis-random': ('C02', XM, 'positions = np.array([pos[0]] + rand_pos + list(pos[1:]))', 'positions = np.array(list(pos) + rand_pos)'),
+ 'C03-neighbours-highest-index': ('C03', CT, 'return sorted(self.bonds)[:natoms]', 'return sorted(self.bonds)[-natoms:]'),
+ 'C03-restore-about-first-atom': ('C03', XM, '        center = self._refsystems[atomref][1]\n', '        center = self._refsystems[min(self._refsystems)][1]\n'),
+ 'C07-restored-twice': ('C07', TM, '                wait_queue.remove(bonds[0])\n', ''),
+ 'C07-input-modified': ('C07', TM, 'atoms_pos = np.copy(atoms_pos)', 'atoms_pos = np.asarray(atoms_pos)'),
+ 'C07-wrong-bond-length': ('C07', TM, 'queue.append((ind2, bonds[0], bonds[1]))', 'queue.append((ind2, bonds[0], bonds_info[ind2][0][1]))'),
+ 'C07-parent-moved': ('C07', TM, 'atoms_pos[ind2] = atoms_pos[ind2] + (modulo - bond) * unit', 'atoms_pos[ind1] = atoms_pos[ind1] - (modulo - bond) * unit'),
+ 'C07-fifo-order-EQUIVALENT': ('C07', TM, 'ind1, ind2, bond = queue.pop()', 'ind1, ind2, bond = queue.popleft()'),
+ 'C08-penalty-ignores-restrained': ('C08', BK, 'len(self.set_restriction2.union(distances.argmin(axis=1))))', 'len(set(distances.argmin(axis=1))))'),
+ 'C08-only-path-when-some': ('C08', BK, 'if not mol1_not_restriction_mask.any():', 'if not mol1_not_restriction_mask.all():'),
+ 'C08-min-over-wrong-axis': ('C08', BK, '        chi2 = np.sum(distances.min(axis=1))\n        n_cg_far = len(mol2)', '        chi2 = np.sum(distances.min(axis=0))\n        n_cg_far = len(mol2)'),
+ 'C08-duplicates-collapsed': ('C08', BK, '            self._mol1_restriction = mol1[restriction1]', '            restriction1, self.restriction2 = np.unique(self.restrictions, axis=0).T\n            self._mol1_restriction = mol1[restriction1]'),
+ 'C12-offset-from-first-kind': ('C12', SY, '            len_mol = len(self.different_molecules[index])\n            for _ in range(ammount):', '            len_mol = len(self.different_molecules[0])\n            for _ in range(ammount):'),
+ 'C12-residues-merged-by-name': ('C12', SY, 'if (atom.resid, atom.resname) == prev_atom_residname:', 'if atom.resname == prev_atom_residname[1]:'),
+ 'C12-iter-without-seek': ('C12', SY, '        for _, start, len_mol in self._molecules_ordered_all_gen():\n            self._open_fgro.seek_atom(start)\n            yield', '        for _, start, len_mol in self._molecules_ordered_all_gen():\n            yield'),
+ 'C13-count-backfilled-at-wrong-offset': ('C13', PAR, 'self._file.seek(self._init_position-1-self.NUMBER_FIGURES)', 'self._file.seek(self._init_position-self.NUMBER_FIGURES)'),
+ 'C13-wrap-99999': ('C13', PAR, 'atominfo[3] = atomlist[3] % 100000', 'atominfo[3] = atomlist[3] % 99999'),
+ 'C13-velocity-width': ('C13', PAR, 'float_format_dict["velocities"] = float_format_dict["decimals"]+1', 'float_format_dict["velocities"] = float_format_dict["decimals"]'),
+ 'C14-count-check-dropped': ('C14', PAR, '            if self._natoms != self._current_atom:', '            if False:'),
+ 'C14-bad-box-line-accepted': ('C14', PAR, '            self._box_matrix = extract_lattice_gro(line)\n        except ValueError:', '            self._box_matrix = extract_lattice_gro(line)\n        except ValueError:\n            self._box_matrix = np.zeros((3, 3))\n            return\n        except KeyError:'),
+ 'C15-pairs-ignored': ('C15', TOP, "for key in ('constraints', 'bonds', 'pairs'):", "for key in ('constraints', 'bonds'):"),
+ 'C15-numbers-as-positions': ('C15', TOP, 'bonds.append((atoms_number[bond[0]], atoms_number[bond[1]]))', 'bonds.append((bond[0] - 1, bond[1] - 1))'),
+ 'C16-repeated-section-overwritten': ('C16', ITP, '                if sec not in self:\n                    self[sec] = ItpSection(sec, [])', '                self[sec] = ItpSection(sec, [])'),
+ 'C17-axis-not-normalised': ('C17', AUX, 'norm_ax = axis / np.linalg.norm(axis)', 'norm_ax = np.asarray(axis, dtype=float)'),
+ 'C17-left-handed-frame': ('C17', AUX, 'vec2 = np.cross(vec3, vec1)', 'vec2 = np.cross(vec1, vec3)'),
+ 'C17-input-modified': ('C17', AUX, '    vec1 = pos2-pos0\n', '    vec1 = pos2\n    vec1 -= pos0\n'),
+ 'C18-rotate-about-origin': ('C18', RES, '        com = self.geometric_center\n        atoms_pos = self.atoms_positions - com', '        com = np.zeros(3)\n        atoms_pos = self.atoms_positions - com'),
+ 'C18-residue-copy-shares-atoms': ('C18', RES, '        return Residue(self.atoms)', '        return Residue(self._atoms_gro)'),
+ 'C19-floor-instead-of-round': ('C19', RES, 'vect -= np.round(vect)', 'vect -= np.floor(vect)'),
+ 'C19-inverse-flag-ignored': ('C19', RES, '            if inv:\n                inv_box = box_vects\n                box_vects = np.linalg.inv(inv_box)', '            if False:\n                inv_box = box_vects\n                box_vects = np.linalg.inv(inv_box)'),
 }
 
 
